@@ -1007,6 +1007,18 @@ package rux
 //@   ghostset firstSeg(route) = first
 //@   ensures first_recorded: firstSeg(route) == first
 //@   ensures groups_match_vars: routeWF(route)
+//@   ensures[C01] without_variables_first_segment_is_literal_and_complete: len($call_FindAllString_0) == 0 && first != "" ==>
+//@       substr(route.path, 1, len(first) + 1) == first ++ "/" && !contains(first, "/") && !contains(first, "[") && len(first) + 1 < indexof(route.path, "[")
+//@   ensures[C01] without_variables_complete_literal_first_segment_is_found: len($call_FindAllString_0) == 0 ==>
+//@       (forall s string :: len(s) > 0 && !contains(s, "/") && substr(route.path, 1, len(s) + 1) == s ++ "/" && len(s) + 1 < indexof(route.path, "[") ==> first == s)
+//@   ensures[C01] with_variables_first_segment_is_literal_and_complete: len($call_FindAllString_0) > 0 && first != "" ==>
+//@       substr($phi_path, 1, len(first) + 1) == first ++ "/" && !contains(first, "/") && !contains(first, "{") && len(first) + 1 < indexof($phi_path, "{")
+//@       && (indexof($phi_path, "[") > 0 ==> len(first) + 1 < indexof($phi_path, "["))
+//@   ensures[C01] with_variables_complete_literal_first_segment_is_found: len($call_FindAllString_0) > 0 ==>
+//@       (forall s string :: len(s) > 0 && !contains(s, "/") && substr($phi_path, 1, len(s) + 1) == s ++ "/" && len(s) + 1 < indexof($phi_path, "{")
+//@           && (indexof($phi_path, "[") > 0 ==> len(s) + 1 < indexof($phi_path, "[")) ==> first == s)
+//@   ensures[C01] prefilter_is_a_literal_prefix: len($call_FindAllString_0) > 0 && route.start != old(route.start) && route.start != "" ==>
+//@       prefixof(route.start, $phi_path) && len(route.start) <= indexof($phi_path, "{")
 //@ loop (*Router).parseParamRoute #0
 //@   vars rangeindex, rawVar, varRegex
 //@   invariant -1 <= rangeindex
@@ -1632,7 +1644,7 @@ package rux
 //
 //@ ghost builtOn(ref) ref
 //@ ghost builtPath(ref) string
-//@ ghost builtWith(ref) M
+//@ ghost builtWith(ref) map[string]any
 //@ spec gstr(v any) string = uf("goutil.String", string, v)
 //@ extern github.com/gookit/goutil.String(v) (s)
 //@   pure
